@@ -462,6 +462,16 @@ def command_output_matches(fn):
 SEND_CALLS = ['crux_core::capability::channel::Sender::send', 'crossbeam_channel::channel::Sender::send']
 
 
+def _field_item_is(core, f, fields, variant):
+    """the fields named are fields of the function's own type whose declared type is a sender of `variant` items (Sender<Effect>)"""
+    root = next((g for g in core.built if g.path == (f.root or f.path)), f)
+    a = core.adts.get(norm(root.assoc.get('self_adt') or '')) if root.assoc else None
+    if a is None or not fields:
+        return False
+    tys = {fl['name']: fl['ty'] for v in a['variants'] for fl in v['fields']}
+    return all(x in tys and re.search(r'Sender<' + re.escape(variant) + r'>', tys[x]) for x in fields)
+
+
 def check_forwarders(rep, core):
     n = 0
     for f in core.built:
@@ -483,6 +493,11 @@ def check_forwarders(rep, core):
                             fields = field_of_receiver(f, t['args'][0])
                             if any(any(c in x for c in chans) for x in fields) and not any(any(c in x for c in other) for x in fields):
                                 verdict = ('ok', 'payload is sent on %s' % ','.join(sorted(fields)))
+                            elif not any(any(c in x for c in other) for x in fields) and (
+                                    variant in str(t['args'][0].get('t') or '') or _field_item_is(core, f, fields, variant)):
+                                # whatever the field is called: the sender's item type is this variant's payload type (Sender<Effect> for
+                                # the Effect arm), which the two channels of a command never share
+                                verdict = ('ok', 'payload is sent on the %s channel (%s)' % (variant, ','.join(sorted(fields)) or 'by type'))
                             else:
                                 verdict = ('bad', 'payload is sent on %s' % ','.join(sorted(fields)))
                         elif t.get('callee') is None or call_matches(t, ['core::ops::function::FnMut::call_mut', 'core::ops::function::Fn::call',
